@@ -60,6 +60,8 @@ EXC_PARENTS = {
     "OSError": "Exception",
     "Empty": "Exception",
     "CallbackError": "Exception",
+    "Full": "Exception",
+    "WorkerFailedError": "Exception",
     "Exception": "BaseException",
     "KeyboardInterrupt": "BaseException",
 }
